@@ -356,6 +356,9 @@ def run(rep: Report, prog: Program, tier: str) -> None:
 
     from ..paths import CannotEval, truth
 
+    class NotAboutLists(Exception):
+        pass
+
     npaths = [p for p in engine(prog).paths(nf)]
     mismatches: list[str] = []
     n_shapes = 0
@@ -381,24 +384,44 @@ def run(rep: Report, prog: Program, tier: str) -> None:
                 tot += vk
             return tot
 
-        loop_vars = {f.target.id for f in ast.walk(nf.node) if isinstance(f, ast.For) and isinstance(f.target, ast.Name)}
+        loop_vars = {f.target.id for f in ast.walk(nf.node) if isinstance(f, (ast.For, ast.comprehension)) and isinstance(f.target, ast.Name)}
+
+        def is_any(x: ast.expr) -> bool:
+            return isinstance(x, ast.Call) and isinstance(x.func, ast.Name) and x.func.id == "any" and len(x.args) == 1 and not x.keywords and isinstance(x.args[0], ast.GeneratorExp) and len(x.args[0].generators) == 1 and isinstance(x.args[0].generators[0].target, ast.Name)
 
         def ast_truth(c: ast.expr) -> bool | None:
             """truth of a branch condition of _normalize_strategy on this signature shape; None = a test inside a
             filter loop (about one parameter), which the decoded parameter lists already account for"""
             if any(isinstance(x, ast.Name) and x.id in loop_vars for x in ast.walk(c)):
                 return None
+            if isinstance(c, ast.Compare) and len(c.ops) == 1 and isinstance(c.ops[0], (ast.Is, ast.IsNot)) and isinstance(c.comparators[0], ast.Constant) and c.comparators[0].value is None:
+                raise NotAboutLists()  # `chosen is None`: about the value picked so far, decided on the path's own term
             if isinstance(c, ast.UnaryOp) and isinstance(c.op, ast.Not):
                 v = ast_truth(c.operand)
                 return None if v is None else (not v)
+            if isinstance(c, ast.Name) and len(assigns.get(c.id, [])) == 1 and is_any(assigns[c.id][0]):
+                c = assigns[c.id][0]
+            if is_any(c):
+                # any(<filter on p> for p in <list>) = the filtered list is non-empty
+                g0 = c.args[0].generators[0]
+                return count(descriptor(ast.ListComp(elt=ast.Name(id=g0.target.id, ctx=ast.Load()), generators=[ast.comprehension(target=g0.target, iter=g0.iter, ifs=[*g0.ifs, c.args[0].elt], is_async=0)]))) > 0
             if isinstance(c, (ast.Name, ast.ListComp)):
                 return count(descriptor(c)) > 0
             if isinstance(c, ast.Compare) and len(c.ops) == 1:
-                def num(x: ast.expr) -> int:
+                def num(x: ast.expr, depth: int = 0) -> int:
                     if isinstance(x, ast.Constant) and isinstance(x.value, int):
                         return x.value
+                    if isinstance(x, ast.Name) and depth < 3:
+                        if len(assigns.get(x.id, [])) == 1 and x.id not in nf.param_names():
+                            return num(assigns[x.id][0], depth + 1)  # a count bound once to a local
+                        if x.id not in assigns and x.id in nf.module.assigns:
+                            return num(nf.module.assigns[x.id], depth + 1)  # a hoisted module constant
                     if isinstance(x, ast.Call) and isinstance(x.func, ast.Name) and x.func.id == "len" and len(x.args) == 1:
                         return count(descriptor(x.args[0]))
+                    if isinstance(x, ast.Call) and isinstance(x.func, ast.Name) and x.func.id == "sum" and len(x.args) == 1 and isinstance(x.args[0], ast.GeneratorExp) and len(x.args[0].generators) == 1 and isinstance(x.args[0].elt, ast.Constant) and x.args[0].elt.value == 1:
+                        # sum(1 for p in <list> if <filter>) = len of the filtered list
+                        g0 = x.args[0].generators[0]
+                        return count(descriptor(ast.ListComp(elt=ast.Name(id=g0.target.id, ctx=ast.Load()), generators=[g0])))
                     raise AnalysisError(f"_normalize_strategy: condition `{ast.unparse(c)}` is not a test on the decoded parameter lists")
                 l, r = num(c.left), num(c.comparators[0])
                 op = c.ops[0]
@@ -416,7 +439,23 @@ def run(rep: Report, prog: Program, tier: str) -> None:
                 if it_[0] != "cond":
                     continue
                 cnode = it_[3]
-                v = ast_truth(cnode.info["cond"])
+                try:
+                    v = ast_truth(cnode.info["cond"])
+                except NotAboutLists:
+                    # the strategy handed in is not None (its annotation; `inspect.signature(None)` raises), the
+                    # adapter is a function: a None test on either is decided, on anything else it stays open
+                    def leaf_nn(t: Any) -> Any:
+                        if t == ("param", nf.param_names()[0]) or t == ("global", wrapped.qual):
+                            return object()
+                        raise CannotEval()
+
+                    try:
+                        if truth(it_[1], leaf_nn) != it_[2]:
+                            ok = False
+                            break
+                    except CannotEval:
+                        pass
+                    continue
                 if v is None:
                     continue
                 taken = it_[6] if len(it_) > 6 else None  # the branch taken on the source condition
